@@ -109,10 +109,10 @@ func (i *itemsValidator) Validate(index int, data interface{}) *Result {
 		}
 
 		validator.SetPath(path)
-		err := validator.Validate(data)
 		if i.Options.recycleValidators {
-			i.validators[idx] = nil // prevents further (unsafe) usage
+			i.validators[idx] = nil // prevents further (unsafe) usage: the validator redeems itself, even when it panics
 		}
+		err := validator.Validate(data)
 		if err != nil {
 			result.Inc()
 			if err.HasErrors() {
@@ -392,10 +392,10 @@ func (p *HeaderValidator) Validate(data interface{}) *Result {
 			continue
 		}
 
-		err := validator.Validate(data)
 		if p.Options.recycleValidators {
-			p.validators[idx] = nil // prevents further (unsafe) usage
+			p.validators[idx] = nil // prevents further (unsafe) usage: the validator redeems itself, even when it panics
 		}
+		err := validator.Validate(data)
 		if err != nil {
 			if err.HasErrors() {
 				result.Merge(err)
@@ -584,10 +584,10 @@ func (p *ParamValidator) Validate(data interface{}) *Result {
 			continue
 		}
 
-		err := validator.Validate(data)
 		if p.Options.recycleValidators {
-			p.validators[idx] = nil // prevents further (unsafe) usage
+			p.validators[idx] = nil // prevents further (unsafe) usage: the validator redeems itself, even when it panics
 		}
+		err := validator.Validate(data)
 		if err != nil {
 			if err.HasErrors() {
 				result.Merge(err)
